@@ -490,14 +490,14 @@ Definition compute_balance (x : txin) (c : config) : R balance :=
     if wants_t then {| m_t := 1; m_s := 0; m_o := 0; m_i := 0 |}
     else for_pool change_pool target_change_count in
   (* assert!(target_change_counts.total_shielded() == target_change_count) *)
-  let* _ := (if wants_t || (total_shielded target_counts =? target_change_count) then Ok tt else Panic) in
-  let* _ :=
+  let* a_ok := (if wants_t || (total_shielded target_counts =? target_change_count) then Ok tt else Panic) in
+  let* d_ok :=
     (if pos (marginal fr) then
        check_for_uneconomic_inputs x c
          (if fully_transparent || (match dust_act c with AddDustToFee => negb change_memo | _ => false end)
           then [M_ZERO; target_counts] else [target_counts])
      else Ok tt) in
-  let* '(chg, fee_) :=
+  let* (chg, fee_) :=
     (if total_in <? total_out_with_min_fee then
        Err (InsufficientFunds total_in total_out_with_min_fee)
      else if (total_in =? total_out_with_min_fee) && fully_transparent then
